@@ -176,6 +176,18 @@ CHECKS["C14"] = {
     "technique": "Coq proofs over the graph builder + differential correspondence and independent graph specification",
 }
 
+CHECKS["C15"] = {
+    "text": "Proof (Coq), quoting layer: for every byte string, the double-quoted form prov/dot.py builds (as repaired) is read "
+            "by the Graphviz quoted-ID rule as exactly that string and ends at its closing quote, and html.escape output is "
+            "accepted by the HTML-like text rule and denotes exactly that string — so no identifier, URI, label or value can "
+            "break the syntax or inject markup (C0 control characters: known finding C15-F1). The structure of the drawing is "
+            "validated, not proved: every generated document x 7 (quick) / all 80 (thorough) option combinations goes through "
+            "the real Graphviz (dot -Tdot_json): acceptance, rankdir, one labelled node per element in its bundle's cluster, "
+            "one direct or blank-node path per two-ended relation with the right URLs and direction, annotation rows (partial).",
+    "design_ref": "DESIGN.md §5 C15, §10",
+    "technique": "Coq proof of the two quoting layers + execution of every case through the real Graphviz with structural oracle",
+}
+
 NOT_YET = {}
 
 
